@@ -289,6 +289,16 @@ def _opt_labels(value: T.Any, maps: T.Dict[str, T.Dict[str, T.Any]]) -> T.List[s
     return [lb for lb in LABELS if maps[lb].get('opt', object()) == value] or ['older']
 
 
+def loadable_manifest(data: bytes) -> bool:
+    """could ninja load this build.ninja: it parses, no rule or pool is defined twice, no output has two producers"""
+    from . import ninja_ref
+    try:
+        m = ninja_ref.parse_text(data.decode('utf-8', errors='surrogateescape'))
+    except Exception:
+        return False
+    return not (m.errors or m.duplicate_rules or m.duplicate_pools or any(len(v) > 1 for v in m.producers().values()))
+
+
 def project_file(path: Path, rel: str, maps: T.Dict[str, T.Dict[str, T.Any]]) -> T.Dict[str, T.Any]:
     """real file -> [f, st, vers]: st in absent/dir/empty/partial/full ("partial" = has data but does not
     parse as what it is); vers = which generations of option values the content is consistent with."""
@@ -325,6 +335,8 @@ def project_file(path: Path, rel: str, maps: T.Dict[str, T.Dict[str, T.Any]]) ->
                 vers = _opt_labels([o['value'] for o in obj if o['name'] == 'opt'][0], maps)
         elif name.startswith('build.ninja'):
             full = data.endswith(b'default all\n\n')
+            if full and not loadable_manifest(data):
+                return {'f': rel, 'st': 'garbled', 'vers': []}
         elif name.endswith('.ini'):
             cp = configparser.ConfigParser(interpolation=None)
             cp.read_string(data.decode('utf-8'))
@@ -430,6 +442,15 @@ def record(w: World, h: History, defaults: T.Dict[str, T.Any]) -> Recorded:
                        'killable': e.op in st.MUTATING_OPS and e.syscall in st.KILLABLE and e.ok})
     if h.failed and not any(o['op'] == 'rename' and o['g'] == CORE for o in ops):
         raise MachineryError(f'{h.id}: the command was meant to fail after its core data was written, but it never wrote it')
+    # 3. the follow-up of the completed command, recorded the same way: what a recovery run writes and how
+    frc, fout = st.run_strace(meson_cmd(('setup', '--reconfigure'), bdir, w.src[h.project]), run / 'followup.log', run_env(run),
+                              watch=watch_args(bdir, watch, piped), timeout=CLI_TIMEOUT)
+    if frc != 0:
+        raise MachineryError(f'{h.id}: the follow-up of the completed command failed ({frc})\n{fout[-1500:]}')
+    fevents = st.parse_log((run / 'followup.log').read_text(errors='replace'), str(bdir), str(run / 'tmp'))
+    fmp = st.main_pid(fevents)
+    recover = [{'op': 'write' if (e.op == 'copy' and not e.g) else e.op, 'f': e.f, 'g': e.g} for e in fevents
+               if e.pid == fmp and e.f and tracked(e.f) and (not e.g or tracked(e.g)) and e.ok]
     names = sorted({x for o in ops for x in (o['f'], o['g']) if x} | set(pre_files) | {CORE, CMDL})
     pre = [{'f': x['f'], 'st': x['st'], 'ver': 'none' if x['st'] == 'dir' else 'old' if 'old' in x['vers'] else 'older'}
            for x in pre_proj]
@@ -438,7 +459,7 @@ def record(w: World, h: History, defaults: T.Dict[str, T.Any]) -> Recorded:
     if '.' in names and h.pre:
         pre.append({'f': '.', 'st': 'dir', 'ver': 'none'})
     script = {'id': h.id, 'kind': h.kind, 'fresh': not (set(pre_files) & {CORE}), 'failed': h.failed,
-              'usesM': h.uses_m, 'usesE': h.uses_e, 'pre': pre, 'ops': ops}
+              'usesM': h.uses_m, 'usesE': h.uses_e, 'pre': pre, 'ops': ops, 'recover': recover}
     shutil.rmtree(run, ignore_errors=True)
     return Recorded(h, script, points, names, watch, piped, maps, rc)
 
@@ -488,9 +509,16 @@ def kill_case(w: World, rec: Recorded, k: int, keep: bool = False) -> T.Dict[str
         reconf, ok, fout = follow_up(w, h, run)
         vals = buildoptions(bdir, run) if ok else None
         after = [x for x in project_state(run, [n for n in rec.names if not n.startswith('$TMP/')], rec.maps)]
+        # the regenerated build.ninja must be the one a reference reconfigure of the recovered directory writes
+        manifest_same = True
+        if ok and (bdir / 'build.ninja').exists():
+            first = (bdir / 'build.ninja').read_bytes()
+            rrc, rout = run_cli(meson_cmd(('setup', '--reconfigure'), bdir, w.src[h.project]), run)
+            manifest_same = rrc == 0 and (bdir / 'build.ninja').read_bytes() == first
         after += [project_file(concrete(bdir, n), n, rec.maps) for n in existing_state_files(bdir) if n not in rec.names]
         case = {'id': f'{h.id}@{k}', 'script': 0, 'aborted': h.failed, 'k': min(k, nops), 'final': final, 'crash': crash, 'reconf': reconf,
                 'ok': bool(ok and vals is not None), 'labels': labels_of(vals, rec.maps, rec.script['fresh']),
+                'manifest_same': manifest_same,
                 'after': [{'f': x['f'], 'st': x['st']} for x in after],
                 'history': h.id, 'killed_at': rec.script['ops'][k] if not final else {'op': 'end', 'f': '', 'g': ''},
                 'followup_tail': fout[-1200:] if not ok else '', 'introspect_failed': ok and vals is None}
@@ -532,12 +560,12 @@ def replay_case(w: World, core: str, cmdl: str, maps: T.Dict[str, T.Dict[str, T.
         names = existing_state_files(bdir)
         names = sorted(set(names) | {CORE, CMDL})
         crash = project_state(run, names, maps)
-        state = {'id': f'replay:{core}/{cmdl}', 'kind': 'replay', 'fresh': False, 'failed': False, 'usesM': True, 'usesE': True, 'ops': [],
+        state = {'id': f'replay:{core}/{cmdl}', 'kind': 'replay', 'fresh': False, 'failed': False, 'usesM': True, 'usesE': True, 'ops': [], 'recover': [],
                  'pre': [{'f': x['f'], 'st': x['st'], 'ver': 'none' if x['st'] == 'dir' else 'old'} for x in crash if x['st'] != 'absent']}
         reconf, ok, fout = follow_up(w, h, run)
         vals = buildoptions(bdir, run) if ok else None
         after = project_state(run, existing_state_files(bdir), maps)
-        return {'id': state['id'], 'state': state, 'final': True, 'aborted': False, 'crash': crash, 'reconf': reconf, 'ok': bool(ok and vals is not None),
+        return {'id': state['id'], 'state': state, 'final': True, 'aborted': False, 'manifest_same': True, 'crash': crash, 'reconf': reconf, 'ok': bool(ok and vals is not None),
                 'labels': labels_of(vals, maps, False), 'after': [{'f': x['f'], 'st': x['st']} for x in after],
                 'values': {k: (vals or {}).get(k) for k in ('opt', 'mopt', 'warning_level', 'pkg_config_path')},
                 'followup_tail': fout[-1200:] if not ok else '', 'core': core, 'cmdl': cmdl,
@@ -588,7 +616,7 @@ def tlc_trace(chk: Check, cfg: str, label: str, scripts: T.List[T.Dict[str, T.An
 
 
 def strip_case(c: T.Dict[str, T.Any]) -> T.Dict[str, T.Any]:
-    keys = ('id', 'script', 'k', 'final', 'crash', 'reconf', 'ok', 'labels', 'after', 'state', 'aborted')
+    keys = ('id', 'script', 'k', 'final', 'crash', 'reconf', 'ok', 'labels', 'after', 'state', 'aborted', 'manifest_same')
     out = {k: c[k] for k in keys if k in c}
     out['labels'] = [{'name': x['name'], 'is': x['is'], 'cls': x['cls']} for x in c['labels']]
     return out
@@ -604,7 +632,7 @@ CONSTANTS
 %s
 CHECK_DEADLOCK FALSE
 '''
-MC_INVARIANTS = ['SafeIsRecoverable', 'SafeIsOldOrNew', 'AtomicCoreNeverTorn', 'AtomicNinjaNeverTorn', 'SyncedCoreDurable',
+MC_INVARIANTS = ['SafeIsRecoverable', 'SafeIsOldOrNew', 'SafeRecoveryIsClean', 'AtomicCoreNeverTorn', 'AtomicNinjaNeverTorn', 'SyncedCoreDurable',
                  'RollbackRestores', 'AtomicCmdlNeverTorn', 'VerdictAgrees', 'InvRunIsFold']
 
 
@@ -625,6 +653,13 @@ def model_check(chk: Check, chunks: int) -> None:
         chk.add_tlc(f'BuildDirCrash_MC[all designs,MaxChunks={chunks},FirstRunReadsCmdline]', res)
     # non-vacuity: the legacy family (cmd_line.txt in place, wipe backup outside the directory - the protocol before
     # fixes a762557 / 3af8f2a) must break in the model
+    # ... and a generator that never truncates its temporary build.ninja must garble the manifest of the follow-up
+    res = run_tlc(FAM, 'BuildDirCrash_MC', cfg_text=MC_CFG % ('FALSE', 1, 'all', 'INVARIANT NoGarbledManifest'), timeout=3600,
+                  allow_violation=True)
+    chk.add_tlc('BuildDirCrash_MC[NoGarbledManifest expected to fail]', res)
+    if res.invariant_violated != 'NoGarbledManifest':
+        raise MachineryError('a design that appends to a stale build.ninja~ was expected to violate NoGarbledManifest: '
+                             f'{res.invariant_violated!r}\n{res.stdout[-800:]}')
     for inv in ('NoBrick', 'NoLostValues'):
         cfg = MC_CFG % ('FALSE', chunks, 'legacy', 'INVARIANT ' + inv)
         res = run_tlc(FAM, 'BuildDirCrash_MC', cfg_text=cfg, timeout=3600, allow_violation=True)
